@@ -356,6 +356,7 @@ func expiryProp(t *rapid.T) {
 		S := time.Duration(rapid.SampledFrom([]int{150, 200, 300}).Draw(t, "S")) * time.Millisecond
 		scenario := rapid.SampledFrom([]string{"recv-after-expiry", "blocked-across-expiry", "late-response", "early-response", "new-survey-after-expiry", "zero-means-infinite"}).Draw(t, "scenario")
 		useCtx := rapid.Bool().Draw(t, "ctx")
+		restart := rapid.Bool().Draw(t, "restartsPendingSurvey")
 		sock, err := surveyor.NewSocket()
 		if err != nil {
 			t.Fatalf("harness: %v", err)
@@ -382,20 +383,33 @@ func expiryProp(t *rapid.T) {
 		if err := c.SetOption(mangos.OptionSurveyTime, S); err != nil {
 			t.Fatalf("harness: %v", err)
 		}
-		doc := map[string]interface{}{"test": "TestC07Expiry", "S_ms": S.Milliseconds(), "scenario": scenario, "ctx": useCtx, "rseed": os.Getenv("VERIF_RSEED")}
+		doc := map[string]interface{}{"test": "TestC07Expiry", "S_ms": S.Milliseconds(), "scenario": scenario, "ctx": useCtx, "restart": restart, "rseed": os.Getenv("VERIF_RSEED")}
 		fail := func(key, f string, a ...interface{}) {
 			stats.Fail(t, "C07:expiry:"+key, doc, "S=%v %s: %s", S, scenario, fmt.Sprintf(f, a...))
+		}
+		// optionally the survey under test replaces one that is still pending
+		base := 0
+		if restart {
+			if err := c.Send([]byte("Q0")); err != nil {
+				fail("send", "Send: %v", err)
+				return
+			}
+			if !p.WaitSent(1, 3*time.Second) {
+				fail("not-sent", "survey not transmitted")
+				return
+			}
+			base = 1
 		}
 		t0 := time.Now()
 		if err := c.Send([]byte("Q")); err != nil {
 			fail("send", "Send: %v", err)
 			return
 		}
-		if !p.WaitSent(1, 3*time.Second) {
+		if !p.WaitSent(base+1, 3*time.Second) {
 			fail("not-sent", "survey not transmitted")
 			return
 		}
-		id := p.SentLog()[0].Data[:4]
+		id := p.SentLog()[base].Data[:4]
 		resp := func(tag string) []byte { return append(append([]byte{}, id...), tag...) }
 		switch scenario {
 		case "zero-means-infinite":
@@ -429,11 +443,11 @@ func expiryProp(t *rapid.T) {
 					fail("send2", "second survey: %v", err)
 					return
 				}
-				if !p.WaitSent(2, 3*time.Second) {
+				if !p.WaitSent(base+2, 3*time.Second) {
 					fail("not-sent", "second survey not transmitted")
 					return
 				}
-				id2 := p.SentLog()[1].Data[:4]
+				id2 := p.SentLog()[base+1].Data[:4]
 				// response to the expired survey must not be delivered; one to the new survey must be
 				p.Inject(resp("to-expired"), 3*time.Second)
 				p.Inject(append(append([]byte{}, id2...), "fresh"...), 3*time.Second)
@@ -477,7 +491,10 @@ func expiryProp(t *rapid.T) {
 		}
 		stats.Eval()
 		stats.Class("expiry:" + scenario)
-		stats.NonTrivial(fmt.Sprintf("E|%s|%d|%v", scenario, S.Milliseconds(), useCtx))
+		if restart {
+			stats.Class("expiry_of_restarted_survey")
+		}
+		stats.NonTrivial(fmt.Sprintf("E|%s|%d|%v|%v", scenario, S.Milliseconds(), useCtx, restart))
 		stats.Sample(doc)
 	}
 }
